@@ -43,6 +43,18 @@ HasNegZero(tn, v) ==
     [] t.k = "union" -> HasNegZero(t.variants[v.i], v.v)
     [] t.k \in {"array", "dict"} -> \E j \in 1..Len(v) : HasNegZero(t.elem.t, v[j])
 
+(* does the value hold a set field whose presence exists in TL2 only (x?:T, x:bit of a TL2-origin type) *)
+RECURSIVE HasTL2OnlyOpt(_, _)
+HasTL2OnlyOpt(tn, v) ==
+  LET t == TY(tn) IN
+  CASE t.k = "prim" -> FALSE
+    [] t.k = "struct" -> \E i \in 1..Len(t.fields) :
+                           LET f == t.fields[i] IN
+                           IF IsOpt(f) THEN IsP(v[i]) /\ (~NatMasked(f) \/ (~f.isbit /\ HasTL2OnlyOpt(f.t, PV(v[i]))))
+                           ELSE HasTL2OnlyOpt(f.t, v[i])
+    [] t.k = "union" -> HasTL2OnlyOpt(t.variants[v.i], v.v)
+    [] t.k \in {"array", "dict"} -> \E j \in 1..Len(v) : HasTL2OnlyOpt(t.elem.t, v[j])
+
 RECURSIVE Mods(_, _, _)
 EntryMods(t, env, v, i) ==
   LET f == t.fields[i]
